@@ -62,6 +62,7 @@ impl Out {
         serde_json::to_writer(&mut self.w, &v).unwrap();
         self.w.write_all(b"\n").unwrap();
         self.n += 1;
+        tick();
     }
     pub fn finish(mut self) {
         self.w.flush().unwrap();
@@ -83,7 +84,32 @@ pub fn ivec(v: &Value) -> Vec<i64> {
 
 /// Run a closure, converting a panic of the code under test into None.
 pub fn guarded<T, F: FnOnce() -> T>(f: F) -> Option<T> {
-    std::panic::catch_unwind(std::panic::AssertUnwindSafe(f)).ok()
+    tick();
+    let r = std::panic::catch_unwind(std::panic::AssertUnwindSafe(f)).ok();
+    tick();
+    r
+}
+
+/// Progress of the recording / replay: counted at every guarded call of the code under test (before and after) and at
+/// every event written. A monitor thread ends the process with exit code 97 when the count stands still for
+/// VERIF_STALL_S seconds (default 300): a call that does not return is reported, not waited for.
+pub static PROGRESS: std::sync::atomic::AtomicU64 = std::sync::atomic::AtomicU64::new(0);
+pub fn tick() { PROGRESS.fetch_add(1, std::sync::atomic::Ordering::Relaxed); }
+pub fn start_stall_monitor() {
+    let stall = std::env::var("VERIF_STALL_S").ok().and_then(|s| s.parse::<u64>().ok()).unwrap_or(300);
+    std::thread::spawn(move || {
+        let mut last = PROGRESS.load(std::sync::atomic::Ordering::Relaxed);
+        let mut since = std::time::Instant::now();
+        loop {
+            std::thread::sleep(std::time::Duration::from_secs(2));
+            let now = PROGRESS.load(std::sync::atomic::Ordering::Relaxed);
+            if now != last { last = now; since = std::time::Instant::now(); }
+            else if since.elapsed().as_secs() >= stall {
+                eprintln!("HANG: no call of the code under test has returned and no event was written for {} s", stall);
+                std::process::exit(97);
+            }
+        }
+    });
 }
 
 pub fn quiet_panics() {
